@@ -140,6 +140,14 @@ fn judge(inr: bool, got: *const u8, want: *const u8) {
 
 /// view(start,end) on an owned (parent 0) or strided view (parent 1) receiver.
 /// draws: cols, rows, stride, start_c, start_r, end_c, end_r
+/// A call with valid arguments must return: a panic is turned into an oracle failure.
+fn accept<R, F: FnOnce() -> R>(f: F) -> R {
+    match std::panic::catch_unwind(std::panic::AssertUnwindSafe(f)) {
+        Ok(r) => r,
+        Err(_) => panic!("ORACLE: a call with valid arguments was rejected (it panicked)"),
+    }
+}
+
 pub fn b_view(parent: u8) {
     let cols = nd::usize_();
     let rows = nd::usize_();
@@ -153,12 +161,13 @@ pub fn b_view(parent: u8) {
         nd::assume(cols <= stride && (cols == 0) == (rows == 0) && stride.checked_mul(rows).is_some());
         let buf: Vec<()> = vec![(); stride * rows];
         let p = TooDeeView::new(stride, rows, &buf);
-        let v0 = p.view((0, 0), (cols, rows));
-        let v = v0.view(s, e);
+        let v0 = accept(|| p.view((0, 0), (cols, rows)));
         if !valid {
+            let _v = v0.view(s, e);
             returned!();
             return;
         }
+        let v = accept(|| v0.view(s, e));
         let (w, h) = (e.0 - s.0, e.1 - s.1);
         assert!(v.size() == if w == 0 || h == 0 { (0, 0) } else { (w, h) }, "ORACLE: view size");
         end_reached!();
@@ -168,12 +177,13 @@ pub fn b_view(parent: u8) {
     let buf = grid(stride.max(1), rows.max(1));
     let base = buf.as_ptr();
     let p = TooDeeView::new(stride, rows, &buf[..stride * rows]);
-    let v0 = p.view((0, 0), (cols, rows));
-    let v = v0.view(s, e);
+    let v0 = accept(|| p.view((0, 0), (cols, rows)));
     if !valid {
+        let _v = v0.view(s, e);
         returned!();
         return;
     }
+    let v = accept(|| v0.view(s, e));
     let (w, h) = (e.0 - s.0, e.1 - s.1);
     let size = if w == 0 || h == 0 { (0, 0) } else { (w, h) };
     assert!(v.size() == size, "ORACLE: view size");
